@@ -168,6 +168,18 @@ Definition add_cell (a b : cell) : option cell :=
 
 Definition add (a b : itens) : option itens := bcast add_cell a b.
 
+(* `a - b` = torch.sub(a, b): "Subtracts other ... from input", element-wise with broadcasting; same
+   conventions as [add].  (Not used by the code as it is today: `chunked[..., 1:] += ...` is an addition -
+   known finding K1; present so that the interpreted source keeps running if that line becomes `-=`.) *)
+Definition sub_cell (a b : cell) : option cell :=
+  match a, b with
+  | CInt x, CInt y => Some (CInt (x - y))
+  | CUndef, CInt _ | CInt _, CUndef | CUndef, CUndef => Some CUndef
+  | _, _ => None
+  end.
+
+Definition sub (a b : itens) : option itens := bcast sub_cell a b.
+
 (* Tensor.long(): "self.long() is equivalent to self.to(torch.int64)": False -> 0, True -> 1 *)
 Definition long_cell (c : cell) : cell :=
   match c with CBool b => CInt (if b then 1 else 0) | c => c end.
